@@ -28,9 +28,19 @@ import (
 type recStream[T any] struct {
 	ctx  context.Context
 	sent int
+	msgs []*T
+	// onSend, if set, is called after every message (used to end streams that the handler keeps open)
+	onSend func(n int)
 }
 
-func (r *recStream[T]) Send(*T) error                { r.sent++; return nil }
+func (r *recStream[T]) Send(m *T) error {
+	r.sent++
+	r.msgs = append(r.msgs, m)
+	if r.onSend != nil {
+		r.onSend(r.sent)
+	}
+	return nil
+}
 func (r *recStream[T]) SetHeader(metadata.MD) error  { return nil }
 func (r *recStream[T]) SendHeader(metadata.MD) error { return nil }
 func (r *recStream[T]) SetTrailer(metadata.MD)       {}
